@@ -153,6 +153,35 @@ class Model(object):
             if fn.endswith('.py'):
                 name = fn[:-3]
                 self.modules[name] = Module(name, os.path.join(pkg, fn), '%s/%s' % (PACKAGE, fn))
+        self._link_inheritance()
+
+    def _link_inheritance(self):
+        """methods / properties / class attributes of in-package base classes are visible on the subclass (a method pulled up
+        into a common base stays addressable as 'path.Line.length'); cls.bases gets the transitive base names"""
+        done = set()
+
+        def link(c):
+            if id(c) in done:
+                return
+            done.add(id(c))
+            c.own_methods = dict(c.methods)
+            for b in list(c.bases):
+                r = self.resolve_global(c.module, b.split('.')[-1])
+                if not (r and r[0] == 'class') or r[1] is c:
+                    continue
+                base = r[1]
+                link(base)
+                for tbl in ('methods', 'getters', 'setters', 'class_attrs'):
+                    for k, v in getattr(base, tbl).items():
+                        if tbl == 'methods' and (k in c.getters or k in c.setters):
+                            continue
+                        getattr(c, tbl).setdefault(k, v)
+                for bb in base.bases:
+                    if bb not in c.bases:
+                        c.bases.append(bb)
+        for m in self.modules.values():
+            for c in m.classes.values():
+                link(c)
 
     def module(self, name):
         if name not in self.modules:
@@ -163,6 +192,9 @@ class Model(object):
         m, c = qual.split('.')
         mod = self.module(m)
         if c not in mod.classes:
+            r = self.resolve_global(mod, c)
+            if r and r[0] == 'class':
+                return r[1]
             raise AnchorMissing('class %s' % qual)
         return mod.classes[c]
 
@@ -175,12 +207,20 @@ class Model(object):
         mod = self.module(parts[0])
         if len(parts) == 2:
             if parts[1] not in mod.functions:
+                # moved to another module of the package and imported back under the same name?
+                r = self.resolve_global(mod, parts[1])
+                if r and r[0] == 'func':
+                    return r[1]
                 raise AnchorMissing('function %s' % qual)
             return mod.functions[parts[1]]
         if len(parts) == 3:
             if parts[1] not in mod.classes:
-                raise AnchorMissing('class %s.%s' % (parts[0], parts[1]))
-            c = mod.classes[parts[1]]
+                r = self.resolve_global(mod, parts[1])
+                if not (r and r[0] == 'class'):
+                    raise AnchorMissing('class %s.%s' % (parts[0], parts[1]))
+                c = r[1]
+            else:
+                c = mod.classes[parts[1]]
             table = c.methods if kind is None else (c.setters if kind == 'setter' else c.getters)
             if parts[2] not in table:
                 raise AnchorMissing('method %s%s' % (qual, ':' + kind if kind else ''))
